@@ -2352,3 +2352,103 @@ Proof.
     specialize (H k (all_kw_complete k)). rewrite Hm in H. exact H.
   - intros t. destruct t; cbn; try discriminate; reflexivity.
 Qed.
+
+(* ------------------------------------------------------------------------------------------- *)
+(* The one place where the parser moves its cursor BACK and hands the context on: the `loop` arm steps back
+   onto the newline that ended its body, and the statement's own expect!(Newline) then consumes that newline
+   again.  That second step lands exactly where the body ended ([prev_then_skip]), so the position never
+   falls below the `last_statement` mark the body left there: `curr - last_statement` in
+   Context::comments_since_last_statement is 0 at that point (the model itself has no last_statement; this is
+   the fact an overflow-checked build depends on). *)
+
+Definition is_comment (t : tok) : bool := match t with TComment => true | _ => false end.
+
+(* the current token is one the cursor can rest on: not a comment, and not a newline while newlines are skipped *)
+Definition head_ok (c : ctx) : Prop :=
+  match post c with
+  | [] => True
+  | t :: _ => t <> TComment /\ (nl c = true -> t <> TK KNewline)
+  end.
+
+Lemma strip_comments b : forall cs tl p, forallb is_comment cs = true ->
+  strip b (cs ++ tl) p = strip b tl (rev cs ++ p).
+Proof.
+  induction cs as [|x cs IH]; intros tl p H; [reflexivity|].
+  cbn [forallb] in H. apply andb_prop in H. destruct H as [Hx H]. destruct x; try discriminate Hx.
+  cbn [app strip rev]. rewrite IH by exact H. rewrite <- app_assoc. reflexivity.
+Qed.
+
+Lemma strip_head_ok b tl p :
+  match tl with [] => True | t :: _ => t <> TComment /\ (b = true -> t <> TK KNewline) end ->
+  strip b tl p = (p, tl).
+Proof.
+  destruct tl as [|t tl]; [reflexivity|]. intros [H1 H2]. cbn [strip].
+  destruct t as [| | | | | |k|]; try reflexivity; [congruence|].
+  destruct k; try reflexivity. destruct b; [exfalso; apply H2; reflexivity|reflexivity].
+Qed.
+
+Lemma strip_result_head b : forall ts p,
+  match snd (strip b ts p) with [] => True | t :: _ => t <> TComment /\ (b = true -> t <> TK KNewline) end.
+Proof.
+  induction ts as [|t ts IH]; intros p; [exact I|]. cbn [strip].
+  destruct t as [| | | | | |k|]; try (cbn [snd]; split; [discriminate|intros _; discriminate]); [apply IH|].
+  destruct k; try (cbn [snd]; split; [discriminate|intros _; discriminate]).
+  destruct b; [apply IH|]. cbn [snd]. split; [discriminate|intros X; discriminate].
+Qed.
+
+Lemma skip_head_ok n c : head_ok (skip n c).
+Proof.
+  unfold skip, head_ok. destruct (adv (post c) n (pre c)) as [[p1 q1] l1].
+  pose proof (strip_result_head (nl c) q1 p1) as H. destruct (strip (nl c) q1 p1) as [p2 q2].
+  cbn [post nl snd] in *. exact H.
+Qed.
+
+Lemma head_ok_pop_false c : head_ok c -> head_ok (pop_nl false c).
+Proof.
+  unfold head_ok, pop_nl, set_nl. cbn [post nl]. destruct (post c) as [|t ts]; [trivial|].
+  intros [H _]. split; [exact H|discriminate].
+Qed.
+
+Lemma unwind_shape : forall pre x cs tl p1 p2, forallb is_comment cs = true ->
+  unwind pre (x :: cs ++ tl) = Some (p1, p2) ->
+  exists t cs', forallb is_comment cs' = true /\ not_comment t = true /\ p2 = t :: cs' ++ tl
+                /\ rev cs' ++ t :: p1 = rev cs ++ x :: pre.
+Proof.
+  induction pre as [|t0 pre IH]; intros x cs tl p1 p2 Hc U.
+  - destruct x; cbn [unwind] in U; try discriminate U; inversion U; subst;
+      (eexists; exists cs; split; [exact Hc|split; [|split; reflexivity]]; reflexivity).
+  - destruct x; cbn [unwind] in U;
+      try (inversion U; subst; eexists; exists cs; split; [exact Hc|split; [|split; reflexivity]]; reflexivity).
+    (* x is a comment: one more step back *)
+    change (t0 :: TComment :: cs ++ tl) with (t0 :: (TComment :: cs) ++ tl) in U.
+    destruct (IH t0 (TComment :: cs) tl p1 p2 ltac:(cbn [forallb is_comment]; exact Hc) U)
+      as (t & cs' & H1 & H2 & H3 & H4).
+    exists t, cs'. split; [exact H1|split; [exact H2|split; [exact H3|]]].
+    rewrite H4. cbn [rev]. rewrite <- app_assoc. reflexivity.
+Qed.
+
+(* stepping back and then over one token returns to the same context *)
+Theorem prev_then_skip c cp : head_ok c -> pre c <> [] -> over c = 0 -> prev c = Some cp -> skip 1 cp = c.
+Proof.
+  intros Hh Hne Ho Hp. unfold prev in Hp. destruct c as [pr po ov b]. cbn [pre post over nl] in *. subst ov.
+  destruct pr as [|t0 pr0]; [congruence|].
+  destruct (unwind pr0 (t0 :: po)) as [[p1 p2]|] eqn:U; [|discriminate]. inversion Hp; subst cp. clear Hp.
+  destruct (unwind_shape pr0 t0 [] po p1 p2 eq_refl U) as (t & cs' & H1 & H2 & H3 & H4).
+  cbn [rev app] in H4. subst p2.
+  unfold skip. cbn [pre post over nl adv].
+  assert (A : adv (cs' ++ po) match t with TComment => 1 | _ => 0 end (t :: p1) = (t :: p1, cs' ++ po, 0)).
+  { destruct t; try discriminate H2; destruct (cs' ++ po); reflexivity. }
+  rewrite A. rewrite (strip_comments b cs' po (t :: p1) H1), H4.
+  rewrite (strip_head_ok b po (t0 :: pr0) Hh). reflexivity.
+Qed.
+
+(* in the loop arm: the body ended at c3 (a context produced by skip and a pop to "newlines count"); if the
+   token before it is the newline, the statement's expect!(Newline) brings the cursor back to c3 itself *)
+Theorem loop_prev_returns n c0 cp : let c3 := pop_nl false (skip n c0) in
+  pre c3 <> [] -> over c3 = 0 -> prev c3 = Some cp -> is_k KNewline cp = true ->
+  expect KNewline cp = Ok c3.
+Proof.
+  intros c3 Hne Ho Hp Hk. unfold expect. rewrite Hk.
+  rewrite (prev_then_skip c3 cp); [reflexivity| |exact Hne|exact Ho|exact Hp].
+  apply head_ok_pop_false. apply skip_head_ok.
+Qed.
